@@ -45,6 +45,7 @@ func (c Config) script() string {
 	}
 	sb.WriteString("|log().prefix('J')\n")
 	fmt.Fprintf(&sb, "a|union(%s)|log().prefix('U')\n", parents)
+	fmt.Fprintf(&sb, "a|union(%s).rename('r')|log().prefix('R')\n", parents)
 	return sb.String()
 }
 
@@ -52,13 +53,15 @@ func (c Config) script() string {
 type Case struct {
 	Cfg   Config
 	Seqs  [][]int
+	BSeqs [][]BatchIn `json:",omitempty"` // batch mode: per-parent batch sequences
 	Order []int
 }
 
 type outcome struct {
-	join  []string // canonical joined points (sorted = multiset)
-	union []string // in output order
-	errs  []string
+	join    []string // canonical joined points (sorted = multiset)
+	union   []string // in output order
+	renamed []string // output of the renaming union
+	errs    []string
 }
 
 func pointFor(c Config, parent, idx, tsec int) (string, map[string]string, map[string]any, time.Time) {
@@ -105,6 +108,11 @@ func run(t *testing.T, c Case) (o outcome, p *problem) {
 		}
 		for _, pt := range env.Diag.Sink("U").Points() {
 			o.union = append(o.union, fmt.Sprintf("%s:%d@%d", pt.Name, pt.Fields["v"], pt.T.Sub(kit.T0)/time.Second))
+		}
+		if s := env.Diag.Sink("R"); s != nil {
+			for _, pt := range s.Points() {
+				o.renamed = append(o.renamed, fmt.Sprintf("%s:%d@%d", pt.Name, pt.Fields["v"], pt.T.Sub(kit.T0)/time.Second))
+			}
 		}
 		for _, e := range env.Diag.ErrorsCopy() {
 			o.errs = append(o.errs, fmt.Sprintf("%+v", e))
@@ -198,6 +206,15 @@ func checkUnion(c Case, o outcome) *problem {
 		}
 		last = ts
 	}
+	// the renaming union sees the same arrivals: the same messages in the same order, all named r (and the plain
+	// union's output, checked above by name, shows that renaming did not touch the shared messages)
+	var want []string
+	for _, u := range o.union {
+		want = append(want, "r"+u[strings.Index(u, ":"):])
+	}
+	if strings.Join(want, " ") != strings.Join(o.renamed, " ") {
+		return &problem{"union-rename", fmt.Sprintf("union().rename('r') emitted %v, the plain union %v", o.renamed, o.union)}
+	}
 	return nil
 }
 
@@ -247,7 +264,7 @@ func mergeOrders(lens []int, f func([]int)) {
 
 func TestCheck(t *testing.T) {
 	r := rep.New("C12", "model_checking",
-		"join and union over all merge orders: a real task with two (or three) from() parents feeding join(...).as(...) [tolerance 0/2s/3s, fill none/null/0.0, on('h') with a more specific parent] and union(...); per-parent non-decreasing time sequences of up to 3 points over times {1,2,3,5}s ({1,2,4,5}s for tolerance 3s: raw times before and after the rounded time) (duplicates, gaps, silent parent); for every pair/triple of sequences ALL merge orders are fed one point at a time with quiescence in between, so the arrival order at the real multi-parent consumer is exactly the merge order. Oracles: the multiset of joined points is identical for every merge order of the same sequences (differential), equals the k-th-occurrence pairing reference (no on-dimension), everything buffered is flushed at task end; union emits every message once, keeps each parent's order and is non-decreasing in time. states = distinct (config, sequences) inputs; transitions = points fed; non-trivial = inputs with at least one joined point")
+		"join and union over all merge orders: a real task with two (or three) from() parents feeding join(...).as(...) [tolerance 0/2s/3s, fill none/null/0.0, on('h') with a more specific parent] and union(...); per-parent non-decreasing time sequences of up to 3 points over times {1,2,3,5}s ({1,2,4,5}s for tolerance 3s: raw times before and after the rounded time) (duplicates, gaps, silent parent); for every pair/triple of sequences ALL merge orders are fed one point at a time with quiescence in between, so the arrival order at the real multi-parent consumer is exactly the merge order. Oracles: the multiset of joined points is identical for every merge order of the same sequences (differential), equals the k-th-occurrence pairing reference (no on-dimension), everything buffered is flushed at task end; union emits every message once, keeps each parent's order and is non-decreasing in time; union().rename() emits the same sequence under the new name without touching the messages the plain union shares. Batch edges: a batch task with 2 (3) query nodes fed through its real BatchCollectors, per-parent sequences of up to 2 batches (batch times {10,20}s; {10,11,13}s under tolerance 3s) of up to 2 points, all merge orders; reference: batches matched per rounded batch time and k-th occurrence, points inside a matched set per rounded point time and k-th occurrence, inner/outer as configured. states = distinct (config, sequences) inputs; transitions = points fed; non-trivial = inputs with at least one joined point")
 	defer r.Write()
 	r.Assumption("parents deliver their points in time order (precondition of the statement)")
 	r.Assumption("join with on(): only the merge-order independence is asserted (no absolute pairing reference)")
@@ -265,6 +282,13 @@ func TestCheck(t *testing.T) {
 			t.Fatal(err)
 		}
 		// replay: run every merge order of the case's sequences
+		if c.BSeqs != nil {
+			if p := checkBatchInput(t, c.Cfg, c.BSeqs, nil); p != nil {
+				r.Violation(p.kind+":"+batchCfgKey(c.Cfg), p.msg, c)
+			}
+			r.Add("evaluations", 1)
+			return
+		}
 		if p := checkInput(t, c.Cfg, c.Seqs, nil); p != nil {
 			r.Violation(p.kind+":"+cfgKey(c.Cfg), p.msg, c)
 		}
@@ -294,6 +318,7 @@ func TestCheck(t *testing.T) {
 		times = []int{1, 2, 5}
 	}
 	n := 0
+	batchPart(t, r, &n)
 	for _, cfg := range cfgs {
 		ml := maxLen
 		if !rep.Thorough() {
@@ -328,6 +353,7 @@ func TestCheck(t *testing.T) {
 				r.Cap("deadline")
 				break
 			}
+			rep.Current(Case{Cfg: cfg, Seqs: in})
 			if p := checkInput(t, cfg, in, r); p != nil {
 				r.Violation(p.kind+":"+cfgKey(cfg), p.msg, Case{Cfg: cfg, Seqs: in})
 			}
